@@ -148,5 +148,23 @@ ShapeConfsGen == ShapeConfs \cup WithGC({
                !.pre = {<<"S1", "legacy">>}, !.pmans = {<<"A1", "art">>, <<"M3", "child">>}, !.pblobs = {"C3", "L4"},
                !.badput = TRUE, !.dels = {"S1", "A1", "A2"}, !.tdels = {"legacy", "art", "t1", FB}, !.faults = TRUE] })
 ShapeConfsOn == {x \in ShapeConfs : x.gc}
+
+\* a collection in progress (Close between its lock check and the end of its sweep) when an image
+\* copy is called: layouts with more than one blobs/<alg> directory (L5 of M5 is stored by sha512),
+\* garbage in either directory (a deleted tag, pushed blobs, temp files of a crashed process)
+SweepConfs == WithGC({
+  [Base EXCEPT !.cp = Two(CC("M5", "t1", {}, FALSE, "p"), CC("M3", "t2", {}, FALSE, "p")),
+               !.pre = {<<"M5", "t0">>}, !.plant = {"tmp-plant"}, !.tdels = {"t0", "t1"}, !.faults = FALSE],
+  [Base EXCEPT !.cp = Two(CC("M5", "t1", {}, FALSE, "p"), CC("M5", "t1", {}, FALSE, "p")),
+               !.pre = {<<"M3", "t0">>}, !.pblobs = {"L5", "L4"}, !.tdels = {"t0"}, !.faults = FALSE] })
+SweepConfsGen == SweepConfs \cup {
+  [Base EXCEPT !.cp = Two(CC("M5", "t1", {}, FALSE, k), CC("M4", "t2", {}, FALSE, "p")),
+               !.pre = {<<"M5", "t0">>, <<"M3", "t3">>}, !.plant = pl, !.ckeys = {"p", k}, !.tdels = {"t0", "t1", "t3"},
+               !.dels = {"M5"}, !.pblobs = {"L5", "B1"}, !.badput = TRUE, !.faults = fl]
+    : k \in {"p", "p/", "l"}, pl \in {{}, {"tmp-plant", "tmp-plant-man"}}, fl \in BOOLEAN } \cup {
+  [Base EXCEPT !.cp = Two(CC("M5", "t1", {}, FALSE, "p"), CC("I1", "t2", {"M2"}, FALSE, "p")),
+               !.pre = {<<"M5", "t1">>, <<"S1", "legacy">>}, !.tdels = {"t1", "legacy"}, !.dels = {"S1"},
+               !.retags = {<<"t1", "t3">>}, !.pblobs = {"L5"}, !.faults = FALSE] }
+FalseVal == FALSE
 GenConfs == LockConfs \cup ShapeConfs
 =============================================================================
